@@ -2103,15 +2103,23 @@ def spec_insertion_target(ctx):
     ok_all, why = True, ''
     for o in rets:
         cs = sig(o)
+        def rng_of(e):
+            # the range an adaptor is called on: passed by value, or through `&mut local` (find_map, position, ... take &mut self)
+            v = e.argvals[0] if e.argvals else None
+            if isinstance(v, Ref) and v.place.base[0] == 'L':
+                v = o.st.store.get(v.place.key(), {}).get(v.place.path)
+            return v
+
         def is_range(e):
-            return e.argvals and isinstance(e.argvals[0], Agg) and len(e.argvals[0].fields) == 2 and re.search(r'Range', e.argvals[0].kind)
+            v = rng_of(e)
+            return isinstance(v, Agg) and len(v.fields) == 2 and re.search(r'Range', v.kind)
         # the scan over the stages: an iterator chain (`(a..b).map(..).find(..)`) or a `for stage in a..b` loop
-        scans = [e for e in cs if is_range(e) and re.search(r'^<std::ops::Range<usize> as (Iterator>::map::<|IntoIterator>::into_iter$)', e.callee)
-                 and not (isinstance(e.argvals[0].fields[0], Cst) and e.argvals[0].fields[0].text.startswith('0_usize'))]
+        scans = [e for e in cs if is_range(e) and re.search(r'^<std::ops::Range<usize> as (Iterator>::(map|find_map|find|filter_map|filter|position|any|all|try_for_each|for_each|rev|take_while|skip_while)\b|IntoIterator>::into_iter$)', e.callee)
+                 and not (isinstance(rng_of(e).fields[0], Cst) and rng_of(e).fields[0].text.startswith('0_usize'))]
         if len(scans) != 1:
             ok_all, why = False, 'expected exactly one scan over a range of stages, found %d' % len(scans)
             break
-        rng = scans[0].argvals[0]
+        rng = rng_of(scans[0])
         ln = [e for e in cs if re.search(r'^Vec::<Stage<.*>>::len$', e.callee) and cs.index(e) < cs.index(scans[0])]
         if not (isinstance(rng, Agg) and len(rng.fields) == 2):
             ok_all, why = False, 'scan range is not a literal start..end: %r' % (rng,)
